@@ -30,6 +30,7 @@ def listFacts : List (String × List Nat × List Nat) := [
   ("c16ValueNumber", Generated.c16ValueNumber, ExpectedC16.c16ValueNumber)]
 
 def list2Facts : List (String × List (List Nat) × List (List Nat)) := [
+  ("c16Oid", Generated.c16Oid, ExpectedC16.c16Oid),
   ("c17Ident", Generated.c17Ident, ExpectedC17.c17Ident)]
 
 def coverFacts : List (String × Bool) := [
@@ -37,7 +38,8 @@ def coverFacts : List (String × Bool) := [
   ("c16TypeTokens", ExpectedC16.covers Generated.c16TypeTokens ExpectedC16.mustTypeTokens),
   ("c16FlagTokens", ExpectedC16.covers Generated.c16FlagTokens ExpectedC16.mustFlagTokens),
   ("c16FormatTokens", ExpectedC16.covers Generated.c16FormatTokens ExpectedC16.mustFormatTokens),
-  ("c16ValueTokens", ExpectedC16.covers Generated.c16ValueTokens ExpectedC16.mustValueTokens)]
+  ("c16ValueTokens", ExpectedC16.covers Generated.c16ValueTokens ExpectedC16.mustValueTokens),
+  ("c16OidTokens", ExpectedC16.covers Generated.c16OidTokens ExpectedC16.mustOidTokens)]
 
 /-- sets of accepted lengths: a row is a length on which code and model disagree -/
 def setFacts : List (String × List Nat × List Nat) := [
